@@ -18,6 +18,9 @@ import shutil
 
 PROPERTY = "C20"
 REPLICAS = 2
+REPLICA_NOTE = ("the primary digest is the W=1 reference front, the replica digest the front of a W=4 FIFO "
+                "run of the same spec under the other hash seed: a difference means the result depends on "
+                "the hash seed and/or on the worker count (the in-interpreter classes tell which)")
 TIERS = {
     "quick": dict(seeds=160, soft_s=170, hard_s=1500, per_seed_s=900, init_s=600, k=2),
     "thorough": dict(seeds=16000, soft_s=3000, hard_s=5400, per_seed_s=1200, init_s=600, k=4),
